@@ -24,6 +24,8 @@ type Client struct {
 	Blocked  int // reads attempted after the script ended while the client waits
 	Reads    int
 	EOFReads int
+	MaxRead  int // when > 0, a read delivers at most this many bytes
+	MaxDepth, MinDepth int // call-stack depth seen at the reads (a parser must not recurse per input line)
 }
 
 // ErrWouldBlock is what a read returns when the client has sent everything and is waiting:
@@ -32,6 +34,12 @@ var ErrWouldBlock = errors.New("wire: client is waiting for a reply (read would 
 
 func (c *Client) Read(p []byte) (int, error) {
 	c.Reads++
+	if d := rt.StackDepth(); d > c.MaxDepth {
+		c.MaxDepth = d
+	}
+	if c.MinDepth == 0 || rt.StackDepth() < c.MinDepth {
+		c.MinDepth = rt.StackDepth()
+	}
 	if c.Closed > 0 {
 		return 0, io.ErrClosedPipe
 	}
@@ -53,6 +61,9 @@ func (c *Client) Read(p []byte) (int, error) {
 		if cut > c.pos && cut < end {
 			end = cut
 		}
+	}
+	if c.MaxRead > 0 && end-c.pos > c.MaxRead {
+		end = c.pos + c.MaxRead
 	}
 	n := copy(p, c.In[c.pos:end])
 	c.pos += n
